@@ -338,9 +338,16 @@ def run(ctx):
     ctx.pmap(_nan_task, [(6, "time"), (6, "numeric"), (4, "time"), (4, "numeric")])
     misc(ctx)
     dtypes(ctx)
+    from . import spell_common
+    spell_common.run(ctx, "C19")
+
 
 
 def replay(sub, case, p):
+    if case.get("kind") == "spelling":
+        from . import spell_common
+        spell_common.run(p, "C19")
+        return
     if case.get("kind") == "cfg":
         L, kind = case["L"], case["dim"]
         da, lab, before, after, mids, near = make_da(L, kind, False)
